@@ -34,6 +34,7 @@ ASSUME JsonSerialize("sasl_pool.json", [
   cshaped  |-> SetToSeq(ShapedClient),
   sshaped  |-> SetToSeq(ShapedServer),
   shapes   |-> SetToSeq({[p |-> q, c |-> PClass(q)] : q \in Shapes}),
+  kindplans |-> SetToSeq(KindPlans(0) \cup KindPlans(2)),
   salpha   |-> SetToSeq(ServerAlphabetFor({"M1", "M2", "M3", Unk, ""})),
   cscripts |-> SetToSeq(ClientScripts(3)),
   sscripts_quick |-> SetToSeq(ServerScriptsQuick(3)),
@@ -46,7 +47,7 @@ ASSUME JsonSerialize("sasl_pool.json", [
 
 VARIABLE x
 EInit == /\ x = 0 /\ role = "client" /\ local = <<>> /\ adv = <<>> /\ pc = "idle" /\ selected = None
-         /\ stepIdx = 0 /\ mechDone = FALSE /\ mechErr = FALSE /\ successSeen = FALSE
+         /\ stepIdx = 0 /\ mechDone = FALSE /\ mechErr = FALSE /\ successSeen = FALSE /\ earlySuccess = FALSE
          /\ permitted = "none" /\ authn = FALSE /\ npeer = 0 /\ sess = 1
 ENext == UNCHANGED <<x, vars>>
 =============================================================================
